@@ -105,7 +105,15 @@ func leavesForHash(blobs storage.Store, hash Key, leafSize uint32, prefix string
 	if err != nil {
 		return nil, err
 	}
-	return verifiedKeys(b, leafSize)
+	keys, err := verifiedKeys(b, leafSize)
+	if err != nil {
+		return nil, err
+	}
+	// the blob must be the root blob of the requested object, not merely a consistent one
+	if verify, _ := verificationKey(b, leafSize); verify != hash {
+		return nil, fmt.Errorf("root blob does not match the requested hash. Requested: %s, found: %s", hash, verify)
+	}
+	return keys, nil
 }
 
 // bytesFromRoot reads the blob referred to by a root hash key
